@@ -100,3 +100,42 @@ Proof.
   do 5 (split; [vm_compute; reflexivity|]).
   apply C03_context_restores_partial; [exact m1_Inv|exact m1_V|exact C03_demo2_ok].
 Qed.
+
+(* ============================ kernel II: gene bookkeeping (coq/theories/Genes) ============================
+   Contexts at SPECIFICATION level: entering a block saves the state, leaving it puts the saved state back (no undo
+   closures are modelled; that the implementation does the same is compared on the real objects by the check,
+   Genes/Check.v `restored`, code 4).  Proved here: the gene invariant of C02 holds along every history with
+   blocks, and a closed block ends in the state saved at its entry.                                           *)
+From Cobra.Genes Require Model Inv Proofs Ctx.
+Module GenesKernel.
+Import Cobra.Genes.Model Cobra.Genes.Inv Cobra.Genes.Proofs Cobra.Genes.Ctx.
+
+Theorem C03_genes_step : forall c o, CInv c -> cop_ok c o -> CInv (fst (cstep c o)).
+Proof. exact cstep_CInv. Qed.
+Print Assumptions C03_genes_step.
+
+Theorem C03_genes_history : forall ops rs, cok_run (mkC (init rs) []) ops -> GInv (cur (crun ops (mkC (init rs) []))).
+Proof.
+  intros ops rs H. apply (crun_CInv ops (mkC (init rs) [])); [|exact H]. split; [apply init_GInv|constructor].
+Qed.
+Print Assumptions C03_genes_history.
+
+Theorem C03_genes_block_restores : forall ops c, balanced 0 ops = true ->
+  crun (Enter :: ops ++ [Exit]) c =
+  mkC (restore (cur c) (cur (crun ops (mkC (cur c) (cur c :: saved c))))) (saved c).
+Proof. exact block_restores. Qed.
+Print Assumptions C03_genes_block_restores.
+
+(* non-vacuity: nested blocks around gene edits; afterwards the content is that of the entry state *)
+Example C03_genes_block_nonvacuous :
+  let pre := [Do (SetRule 0 (Some (TBool true [TGene 0; TGene 1]))); Do (AddRxn 0); Do (SetRule 1 (Some (TGene 1))); Do (AddRxn 1)] in
+  let blk := [Do (RemoveRxn 0 true); Enter; Do (RenameGenes [(1, 4)]); Do (RemoveGenes [4] true); Exit; Do (SetRule 1 (Some (TGene 7)))] in
+  let c0 := crun pre (mkC (init [0; 1]) []) in
+  let c1 := crun (Enter :: blk ++ [Exit]) c0 in
+  cok_run (mkC (init [0; 1]) []) (pre ++ Enter :: blk ++ [Exit]) /\ balanced 0 blk = true /\
+  map (gid (cur c1)) (glist (cur c1)) = [0; 1] /\ map (rin (cur c1)) [0; 1] = [true; true] /\ saved c1 = [] /\
+  map (rin (cur (crun (Enter :: blk) c0))) [0; 1] = [false; true] /\
+  map (gid (cur (crun (Enter :: blk) c0))) (glist (cur (crun (Enter :: blk) c0))) = [1; 7].
+Proof. vm_compute. repeat split. Qed.
+Print Assumptions C03_genes_block_nonvacuous.
+End GenesKernel.
